@@ -34,6 +34,13 @@ for d in dirs:
             hf = [l for l in out.stdout.splitlines() if l.startswith("HARNESS FAULT")]
             print("%-6s %s -> exit %d in %.0fs %s %s" % (name, p, out.returncode, time.time() - t0, (v[0][:260] if v else ""), (hf[0][:200] if hf else "")), flush=True)
             results.setdefault(name, {})[p] = {"exit": out.returncode, "first_violation": v[0][:400] if v else None}
+            # keep one replay file per (change, property) next to the change; the rest is scratch
+            reps = sorted(glob.glob(os.path.join(VERIF, "replays", p + "-*.json")))
+            if reps:
+                os.makedirs(os.path.join(d, "replays"), exist_ok=True)
+                for old in glob.glob(os.path.join(d, "replays", p + "-*.json")): os.remove(old)
+                os.replace(reps[0], os.path.join(d, "replays", os.path.basename(reps[0])))
+            for f in reps[1:]: os.remove(f)
     finally:
         subprocess.run(["git", "-C", "/repo", "apply", "-R", os.path.join(d, "patch.diff")])
         subprocess.run(["git", "-C", "/repo", "checkout", "--", "."])
